@@ -302,7 +302,12 @@ func (se *SessionExecutor) bindStmtArgs(s *Stmt, nullBitmap, paramTypes, paramVa
 				return mysql.ErrMalformPacket
 			}
 
-			args[i] = float32(math.Float32frombits(binary.LittleEndian.Uint32(paramValues[pos : pos+4])))
+			f32 := math.Float32frombits(binary.LittleEndian.Uint32(paramValues[pos : pos+4]))
+			if math.IsNaN(float64(f32)) || math.IsInf(float64(f32), 0) {
+				// no SQL literal denotes NaN or an infinity
+				return fmt.Errorf("Stmt parameter %d: float value %v cannot be bound", i, f32)
+			}
+			args[i] = f32
 			pos += 4
 			continue
 
@@ -311,7 +316,12 @@ func (se *SessionExecutor) bindStmtArgs(s *Stmt, nullBitmap, paramTypes, paramVa
 				return mysql.ErrMalformPacket
 			}
 
-			args[i] = math.Float64frombits(binary.LittleEndian.Uint64(paramValues[pos : pos+8]))
+			f64 := math.Float64frombits(binary.LittleEndian.Uint64(paramValues[pos : pos+8]))
+			if math.IsNaN(f64) || math.IsInf(f64, 0) {
+				// no SQL literal denotes NaN or an infinity
+				return fmt.Errorf("Stmt parameter %d: double value %v cannot be bound", i, f64)
+			}
+			args[i] = f64
 			pos += 8
 			continue
 
